@@ -38,14 +38,15 @@ impl<'a, V> VacantEntry<'a, V> {
     { unimplemented!() }
 }
 // iteration: some duplicate-free enumeration of the entries, order NOT specified (holds for every hash seed)
+pub uninterp spec fn hashmap_items<'a, V>(m: &'a HashMap<String, V>) -> Seq<(&'a String, &'a V)>;
 impl<'a, V> ShimIntoIter for &'a HashMap<String, V> {
     type Item = (&'a String, &'a V);
-    uninterp spec fn items(&self) -> Seq<(&'a String, &'a V)>;
+    open spec fn items(&self) -> Seq<(&'a String, &'a V)> { hashmap_items(*self) }
     #[verifier::external_body]
     fn shim_iter(self) -> (r: ShimIter<(&'a String, &'a V)>) { unimplemented!() }
 }
 pub broadcast axiom fn axiom_hashmap_items<'a, V>(m: &'a HashMap<String, V>)
     ensures
-        forall|i: int| 0 <= i < (#[trigger] m.items()).len() ==> m@.contains_key(m.items()[i].0@) && *m.items()[i].1 == m@[m.items()[i].0@],
-        forall|i: int, j: int| 0 <= i < j < m.items().len() ==> m.items()[i].0@ != m.items()[j].0@,
-        forall|k: Seq<char>| m@.contains_key(k) ==> exists|i: int| 0 <= i < m.items().len() && #[trigger] m.items()[i].0@ == k;
+        forall|i: int| 0 <= i < (#[trigger] hashmap_items(m)).len() ==> m@.contains_key(hashmap_items(m)[i].0@) && *hashmap_items(m)[i].1 == m@[hashmap_items(m)[i].0@],
+        forall|i: int, j: int| 0 <= i < j < hashmap_items(m).len() ==> hashmap_items(m)[i].0@ != hashmap_items(m)[j].0@,
+        forall|k: Seq<char>| m@.contains_key(k) ==> exists|i: int| 0 <= i < hashmap_items(m).len() && #[trigger] hashmap_items(m)[i].0@ == k;
